@@ -45,7 +45,8 @@ type C08TableCase struct {
 // c08Table enumerates the table; returns the first mismatch.
 func c08Table(st *Stats) (*Failure, int) {
 	anns := []*string{nil, sp(world.OurClass), sp("nginx")}
-	classes := []*string{nil, sp(world.OurClass), sp("other"), sp("dangling")}
+	// "next", "sub" and "short" belong to controllers whose name extends, or is extended by, ours
+	classes := []*string{nil, sp(world.OurClass), sp("other"), sp("dangling"), sp("next"), sp("sub"), sp("short")}
 	rows := 0
 	var first *Failure
 	for _, wwc := range []bool{false, true} {
@@ -54,7 +55,10 @@ func c08Table(st *Stats) (*Failure, int) {
 			var objs []*world.Obj
 			objs = append(objs,
 				&world.Obj{Kind: world.KIngressClass, Name: world.OurClass, Controller: world.ControllerName},
-				&world.Obj{Kind: world.KIngressClass, Name: "other", Controller: "example.com/other"})
+				&world.Obj{Kind: world.KIngressClass, Name: "other", Controller: "example.com/other"},
+				&world.Obj{Kind: world.KIngressClass, Name: "next", Controller: world.ControllerName + "-next"},
+				&world.Obj{Kind: world.KIngressClass, Name: "sub", Controller: world.ControllerName + "/internal"},
+				&world.Obj{Kind: world.KIngressClass, Name: "short", Controller: strings.TrimSuffix(world.ControllerName, "/controller")})
 			n := 0
 			for _, a := range anns {
 				for _, c := range classes {
@@ -127,7 +131,12 @@ var c08Kinds = []string{world.KIngress, world.KIngress, world.KIngress, world.KI
 func c08Profile() Profile {
 	p := c03Profile()
 	p.Classes = true
-	p.DefBackend = false // excluded: known finding of C01 (default backend joining a configured default host)
+	// at most one ingress with spec.defaultBackend and no empty-host rule: the default host has a single possible
+	// owner, which keeps the histories clear of the known finding of C01 (a default backend joining a configured default host)
+	p.DefBackend = true
+	p.SingleDefBack = true
+	p.DefBackPct, p.DefBackOnlyPct = 30, 60
+	p.EmptyHost = false
 	p.GlobalCM = false
 	p.Ann = []annChoice{{"balance-algorithm", []string{"roundrobin", "leastconn"}}, {"path-type", []string{"begin", "prefix"}}}
 	p.MaxIng = 6
